@@ -120,10 +120,15 @@ def run_case(case, ctx):
         m = rng.random(L) < 0.2
         m[0] = m[-1] = False
         full = np.where(m, np.nan, full)
+    integer = case["dseed"] % 5 == 0 and kind != "imputer" and not case.get("flat")
+    if integer:
+        full = np.round(full)       # handed over as an integer-typed series below
+        ctx.tag("input:integer-series")
     y = _mk(full[:n], 0, case["idx"], off)
     frame = bool(case.get("frame")) and kind in FRAME_OK
     # multivariate series: two columns over the same time index (the second an affine image of the first)
-    W = (lambda s_: pd.DataFrame({"a": s_.values, "b": s_.values * 0.5 + 3.0}, index=s_.index)) if frame else (lambda s_: s_)
+    T = (lambda s_: s_.astype(np.int64)) if integer else (lambda s_: s_)
+    W = (lambda s_: pd.DataFrame({"a": T(s_).values, "b": s_.values * 0.5 + 3.0}, index=s_.index)) if frame else T
     if frame:
         ctx.tag("input:multivariate-frame")
     tr = build(cfg)
